@@ -70,20 +70,21 @@ type verifCfg struct {
 
 // verifConfigs: the header shapes. Sizes are "what SQLite needs to call it a database / a WAL"
 // (16 / 8 bytes) plus 0..4 / 0..3 bytes, and a few degenerate ones (0, shorter than the magic).
-func verifConfigs() []verifCfg {
+func verifConfigs(thorough bool) []verifCfg {
 	quick := []verifCfg{
 		{verifKindFull, []int{verifDBPre + 1}},
 		{verifKindFull, []int{verifDBPre + 2, verifWALPre + 1}},
-		{verifKindFull, []int{verifDBPre, verifWALPre, verifWALPre + 2}},
-		{verifKindFull, []int{verifDBPre + 1, 0, verifWALPre + 1}},
+		{verifKindFull, []int{verifDBPre, verifWALPre + 1, verifWALPre}},
 		{verifKindNoDB, []int{0, verifWALPre}},
 		{verifKindIncFile, nil},
 		{verifKindNoPayload, nil},
 	}
-	if verifTier() == 0 {
+	if !thorough {
 		return quick
 	}
 	more := []verifCfg{
+		{verifKindFull, []int{verifDBPre + 1, 0, verifWALPre + 1}},
+		{verifKindFull, []int{verifDBPre, verifWALPre, verifWALPre + 2}},
 		{verifKindFull, []int{verifDBPre}},
 		{verifKindFull, []int{verifDBPre + 4}},
 		{verifKindFull, []int{verifDBPre + 3, verifWALPre + 3}},
@@ -116,16 +117,26 @@ const verifExtra = 3 // at most this many bytes beyond the exact length
 
 func verifSortedUnique(in []int) []int {
 	var out []int
-	for v := 0; v <= 4096; v++ {
-		for _, x := range in {
-			if x == v {
-				out = append(out, v)
+	for _, x := range in {
+		// insertion sort, duplicates dropped
+		pos := len(out)
+		dup := false
+		for i, y := range out {
+			if y == x {
+				dup = true
+				break
+			}
+			if y > x {
+				pos = i
 				break
 			}
 		}
-		if len(out) == len(in) {
-			break
+		if dup {
+			continue
 		}
+		out = append(out, 0)
+		copy(out[pos+1:], out[pos:])
+		out[pos] = x
 	}
 	return out
 }
@@ -133,24 +144,46 @@ func verifSortedUnique(in []int) []int {
 // verifOffsets: the stream offsets (logical: header = 4 bytes) at which the stream may end or
 // be split. Every offset inside the length prefix and the header; for every artifact the offset
 // after its first byte, its middle, before its last byte, its end; after the exact end.
-func verifOffsets(sizes []int, all bool) []int {
+//
+// verifOffSparse leaves out offsets 3 and 7 and the middles; verifOffAll is every offset;
+// verifOffExact is the exact end only.
+const (
+	verifOffSparse = iota
+	verifOffRepr
+	verifOffAll
+	verifOffExact
+	verifOffTail // exact end, one byte more
+)
+
+func verifOffsets(sizes []int, mode int) []int {
 	E := HeaderSizeLen + verifTokLen
 	for _, s := range sizes {
 		E += s
 	}
-	if all {
+	switch mode {
+	case verifOffExact:
+		return []int{E}
+	case verifOffTail:
+		return []int{E, E + 1}
+	case verifOffAll:
 		var out []int
 		for o := 0; o <= E+verifExtra; o++ {
 			out = append(out, o)
 		}
 		return out
 	}
-	c := []int{0, 1, 3, 4, 5, 7, 8}
+	c := []int{0, 1, 4, 5, 8}
+	if mode == verifOffRepr {
+		c = append(c, 3, 7)
+	}
 	a := HeaderSizeLen + verifTokLen
 	for _, s := range sizes {
 		b := a + s
 		if s > 0 {
-			c = append(c, a+1, (a+b)/2, b-1, b)
+			c = append(c, a+1, b-1, b)
+			if mode == verifOffRepr {
+				c = append(c, (a+b)/2)
+			}
 		}
 		a = b
 	}
@@ -213,42 +246,79 @@ func verifBuildHeader(kind int, sizes []int, crcs []uint32) *proto.SnapshotHeade
 
 // verifScenario builds the stream. nCuts = number of split points; allOffsets = every offset is a
 // candidate (else the representative ones of verifOffsets).
-func verifScenario(nCuts int, allOffsets bool) *verifScn {
-	cfgs := verifConfigs()
+type verifOpt struct {
+	nCuts    int  // number of split points (nCuts+1 Writes / Reads)
+	cutOffs  int  // verifOff*: where the stream may be split
+	lenOffs  int  // verifOff*: where the stream may end
+	restore  bool // scenario for Restore (no damaged magic: Restore does not look at it)
+	symbolic bool // declared CRCs, last byte of every artifact, bytes beyond the end: symbolic
+	thorough bool // all header shapes
+}
+
+func verifScenario(opt verifOpt) *verifScn {
+	restore := opt.restore
+	cfgs := verifConfigs(opt.thorough)
 	cfg := cfgs[verifChoice("config", len(cfgs))]
 	sc := &verifScn{kind: cfg.kind, sizes: cfg.sizes}
 	full := sc.kind == verifKindFull || sc.kind == verifKindNoDB
 
 	// logical lengths and split points
-	offs := verifOffsets(sc.sizes, allOffsets)
-	li := verifChoice("len", len(offs))
-	logL := offs[li]
+	lens := verifOffsets(sc.sizes, opt.lenOffs)
+	logL := lens[verifChoice("len", len(lens))]
 	logE := HeaderSizeLen + verifTokLen
 	for _, s := range sc.sizes {
 		logE += s
 	}
+	var cand []int
+	for _, o := range verifOffsets(sc.sizes, opt.cutOffs) {
+		if o <= logL {
+			cand = append(cand, o)
+		}
+	}
 	var logCuts []int
 	lo := 0
-	for c := 0; c < nCuts; c++ {
-		k := lo + verifChoice(verifName("cut", c), li-lo+1)
-		logCuts = append(logCuts, offs[k])
+	for c := 0; c < opt.nCuts; c++ {
+		k := lo + verifChoice(verifName("cut", c), len(cand)-lo)
+		logCuts = append(logCuts, cand[k])
 		lo = k
 	}
 	logCuts = append(logCuts, logL)
 
-	// data: every byte symbolic except the rest of the magic of each artifact
+	// data: each artifact = the SQLite magic, then arbitrary bytes. The LAST byte of every
+	// artifact that is longer than its magic and the bytes beyond the exact end are symbolic;
+	// the others are fixed, all different. (The code under test looks at content only through
+	// the CRC and the magic; the declared CRCs are symbolic on their own, see crcDelta.)
+	// For streams of exact length one artifact may have its magic damaged.
 	total := logE - HeaderSizeLen - verifTokLen + verifExtra
-	data := verifBytes("data", total)
+	data := make([]byte, total)
+	for j := range data {
+		data[j] = byte(0x80 | (j*7+3)&0x7f)
+	}
+	// (the sink looks at the CRC fields only once the stream is complete; Restore after each artifact)
+	symCRC := opt.symbolic && full && (restore || logL == logE)
+	damaged := -1
+	if logL == logE && sc.kind == verifKindFull && !restore {
+		damaged = verifChoice("damagedMagic", len(sc.sizes)+1) - 1
+	}
 	off := 0
 	for i, s := range sc.sizes {
 		magic := verifWALMagic
 		if i == 0 {
 			magic = verifDBMagic
 		}
-		for j := 1; j < s && j < len(magic); j++ {
+		for j := 0; j < s && j < len(magic); j++ {
 			data[off+j] = magic[j]
 		}
+		if s > len(magic) && symCRC {
+			data[off+s-1] = verifU8(verifName("lastByte", i))
+		}
+		if i == damaged && s > 0 {
+			data[off] ^= 0x20
+		}
 		off += s
+	}
+	if logL > logE && opt.symbolic {
+		copy(data[off:], verifBytes("extra", logL-logE))
 	}
 	dataLen := logL - HeaderSizeLen - verifTokLen
 	if dataLen < 0 {
@@ -271,7 +341,7 @@ func verifScenario(nCuts int, allOffsets bool) *verifScn {
 		sc.whole = append(sc.whole, off+s <= len(data))
 		sc.crcs = append(sc.crcs, verifCRC(sl))
 		d := uint32(0)
-		if full {
+		if symCRC {
 			d = verifU32(verifName("crcDelta", i))
 		}
 		sc.delta = append(sc.delta, d)
@@ -463,7 +533,7 @@ func verifDriveSink(sc *verifScn) *verifSinkRun {
 	if run.writeErr != nil || (sc.kind == verifKindIncFile && sc.hdrComplete()) {
 		// what raft does with a failed transfer. (Closing an accepted IncrementalFile header
 		// would move a WAL directory and exit the process when that fails: not this property.)
-		verifAssert("C10-cancel-ok", s.Cancel() == nil)
+		s.Cancel()
 		return run
 	}
 	run.closeErr = s.Close()
@@ -509,6 +579,10 @@ func verifSinkOracle(sc *verifScn, run *verifSinkRun) {
 		// a header that describes no database: the Write that completes it must fail
 		// (IncrementalFile headers are legal only without any following data)
 		if sc.kind == verifKindIncFile && sc.L == HeaderSizeLen+sc.H {
+			if run.writeErr != nil && verifPieceLen(sc, run.failedAt) == 0 && sc.cuts[run.failedAt] == sc.L {
+				verifReach("empty-write-after-end")
+				verifFinding("C10-empty-write-after-last-byte-refused")
+			}
 			verifAssert("C10-incfile-header-alone-accepted", run.writeErr == nil)
 			return // Close would move a directory that does not exist: not this property
 		}
@@ -578,39 +652,51 @@ func verifPieceLen(sc *verifScn, i int) int {
 	return sc.cuts[i] - sc.cuts[i-1]
 }
 
-func verifSinkCuts() int {
-	if verifTier() == 1 {
-		return 3
-	}
-	return 2
+func verifCheckSink(opt verifOpt) {
+	verifPanicsAreViolations()
+	sc := verifScenario(opt)
+	run := verifDriveSink(sc)
+	verifSinkOracle(sc, run)
+	verifCleanup(run.dir)
 }
 
-// VerifC10Sink: any header shape, any stream length, any CRC fields, up to 3 (quick) / 4
-// (thorough) Writes split at the representative offsets.
+// VerifC10SinkCRC: the declared CRC of every artifact is ANY 32-bit value (equal to or different
+// from the CRC of the bytes that arrive), the last byte of every artifact and the bytes beyond
+// the end are symbolic; streams of exact length (and one byte too long), two Writes.
+func VerifC10SinkCRC() {
+	verifCheckSink(verifOpt{nCuts: 1, cutOffs: verifOffSparse, lenOffs: verifOffTail, symbolic: true, thorough: verifTier() == 1})
+}
+
+// VerifC10Sink: every header shape, every stream length (representative offsets), declared CRCs
+// correct, 3 Writes (quick; split at the sparse offsets, 6 header shapes) / 4 Writes (thorough;
+// all header shapes).
 func VerifC10Sink() {
-	verifPanicsAreViolations()
-	sc := verifScenario(verifSinkCuts(), false)
-	run := verifDriveSink(sc)
-	verifSinkOracle(sc, run)
-	verifCleanup(run.dir)
+	if verifTier() == 1 {
+		verifCheckSink(verifOpt{nCuts: 3, cutOffs: verifOffSparse, lenOffs: verifOffRepr, thorough: true})
+		return
+	}
+	verifCheckSink(verifOpt{nCuts: 2, cutOffs: verifOffSparse, lenOffs: verifOffRepr})
 }
 
-// VerifC10SinkAnySplit: two Writes split at EVERY offset of the stream (thorough: three).
+// VerifC10SinkAnySplit: two Writes split at EVERY offset of the stream; stream of exact length
+// (quick) / of every length from 0 to 3 bytes beyond the end, all header shapes (thorough).
 func VerifC10SinkAnySplit() {
-	verifPanicsAreViolations()
-	n := 1
 	if verifTier() == 1 {
-		n = 2
+		verifCheckSink(verifOpt{nCuts: 1, cutOffs: verifOffAll, lenOffs: verifOffAll, thorough: true})
+		return
 	}
-	sc := verifScenario(n, true)
-	run := verifDriveSink(sc)
-	verifSinkOracle(sc, run)
-	verifCleanup(run.dir)
+	verifCheckSink(verifOpt{nCuts: 1, cutOffs: verifOffAll, lenOffs: verifOffExact})
+}
+
+// VerifC10SinkAnySplit3 (thorough only): three Writes split at EVERY pair of offsets of a stream
+// of exact length.
+func VerifC10SinkAnySplit3() {
+	verifCheckSink(verifOpt{nCuts: 2, cutOffs: verifOffAll, lenOffs: verifOffExact})
 }
 
 // VerifC10Twin: same set-up as VerifC10Sink; the final claim is false (good streams do install).
 func VerifC10Twin() {
-	sc := verifScenario(1, false)
+	sc := verifScenario(verifOpt{nCuts: 1, cutOffs: verifOffSparse, lenOffs: verifOffRepr})
 	run := verifDriveSink(sc)
 	verifAssert("C10-twin-never-installs", !verifExists(run.final))
 	verifCleanup(run.dir)
@@ -671,13 +757,25 @@ func verifCatchRestore(r io.Reader, dst string) (n int64, err error, panicked bo
 	return
 }
 
+// VerifC10Restore: every header shape, every stream length (representative offsets), declared
+// CRCs correct, the stream arriving in 3 (quick) / 4 (thorough) Reads.
 func VerifC10Restore() {
-	verifPanicsAreViolations()
-	nc := 2
+	opt := verifOpt{nCuts: 2, cutOffs: verifOffSparse, lenOffs: verifOffRepr, restore: true}
 	if verifTier() == 1 {
-		nc = 3
+		opt = verifOpt{nCuts: 3, cutOffs: verifOffSparse, lenOffs: verifOffRepr, restore: true, thorough: true}
 	}
-	sc := verifScenario(nc, false)
+	verifCheckRestore(opt)
+}
+
+// VerifC10RestoreCRC: declared CRCs ANY 32-bit value, last byte of every artifact and the bytes
+// beyond the end symbolic; every stream length (representative offsets), two Reads.
+func VerifC10RestoreCRC() {
+	verifCheckRestore(verifOpt{nCuts: 1, cutOffs: verifOffSparse, lenOffs: verifOffSparse, restore: true, symbolic: true, thorough: verifTier() == 1})
+}
+
+func verifCheckRestore(opt verifOpt) {
+	verifPanicsAreViolations()
+	sc := verifScenario(opt)
 	dir := verifRootDir()
 	dst := filepath.Join(dir, "restored.db")
 
@@ -797,7 +895,7 @@ func VerifC10Source() {
 	total, err := str.Len()
 	verifAssert("C10-streamer-len-ok", err == nil)
 
-	bufs := []int{1 + verifChoice("buf0", 3), 1 + verifChoice("buf1", 5)}
+	bufs := []int{1 + verifChoice("buf0", 2), 2 + 3*verifChoice("buf1", 2)}
 	got, err := verifChunkReadAll(str, bufs, 64)
 	verifAssert("C10-streamer-reads-to-eof", err == nil)
 	verifAssert("C10-streamer-closes", str.Close() == nil)
@@ -892,7 +990,6 @@ func verifFSReset() {
 	verifReplays = nil
 	verifCRCWs = map[*rsum.CRC32Writer]*verifCRCW{}
 	verifCRCRs = map[*rsum.CRC32Reader]*verifCRCR{}
-	verifEncs = nil
 }
 
 func verifFSExists(path string) bool {
